@@ -567,4 +567,54 @@ def R7_cross_checks(run):
             C12.compare_pair(RuleProxy(run, 'R7'), 'R7', pr['a'], pr['b'], keys=pr.get('keys', C12.ALL), subs_b=pr.get('subs_b', ()), exempt=pr.get('exempt', {}), norm_a=pr.get('na'), norm_b=pr.get('nb'))
 
 
-RULES = [R6_account_wiring, R1_constants, R2_shift_bitmap_pairing, R3_byte_offset, R4_size_and_rent, R5_shared_checks, R7_cross_checks]
+def R8_conversions(run):
+    run.title("R8", "tick conversions copy every field to the field of the same name: TickUpdate <-> Tick, and the dynamic slot <-> Tick (Initialized(data) carries "
+                    "net, gross, both fee growths and the reward growths; Uninitialized is the default tick; an initialised update becomes Initialized)")
+    facts = run.facts
+    convs = [("<state::tick::Tick as std::convert::From<state::tick::TickUpdate>>::from", 6, None),
+             ("<state::tick::TickUpdate as std::convert::From<state::tick::Tick>>::from", 6, None),
+             ("<state::dynamic_tick_array::DynamicTick as std::convert::From<&state::tick::TickUpdate>>::from", 5, "Initialized"),
+             ("state::dynamic_tick_array::<impl std::convert::From<state::dynamic_tick_array::DynamicTick> for state::tick::Tick>::from", 6, None)]
+    for path, nfields, variant in convs:
+        fn = facts.need_fn(path)
+        run.touch(fn)
+        pv = prov_of(fn)
+        aggs = []
+        for bi, bb in enumerate(fn.blocks):
+            if bb["t"]["k"] == "ret":
+                for l in leaves(pv.local(0, bi, len(bb["s"]))):
+                    for x in subterms(l):
+                        if x[0] == "agg" and len(x[3]) >= 5:
+                            aggs.append(x)
+        short = path.split("From<")[1].split(">")[0].rsplit("::", 1)[-1] + "->" + ("DynamicTick" if variant else path.split(" as ")[0].split(" for ")[-1].rstrip(">").rsplit("::", 1)[-1].replace("<", ""))
+        bad = []
+        for x in aggs:
+            for name, v in x[3]:
+                v_ = strip(v)
+                if name == "initialized" and const_val(v_) == 1:
+                    continue        # Initialized(data) read back as an initialised tick
+                if not (v_[0] == "field" and v_[2] == name):
+                    bad.append("%s := %s" % (name, sh(v_, 40)))
+        ok = len(aggs) == 1 and len(aggs[0][3]) == nfields and not bad
+        run.check("R8", "copy@" + short, ok, "%s does not copy its %d fields name by name (%s)" % (path, nfields, "; ".join(bad) or "%d literal(s) of %s fields" % (len(aggs), [len(a[3]) for a in aggs])),
+                  loc=fn.loc(), detail="%d fields, same names" % nfields)
+    fn = facts.need_fn(convs[2][0])
+    ats = [at for at in A.atoms(fn) if is_field(strip(at.term), "initialized")]
+    ok = len(ats) == 1
+    if ok:
+        at = ats[0]
+        pvt, pvf = prov_assuming(fn, [(at, True)]), prov_assuming(fn, [(at, False)])
+
+        def variant_of(pv_):
+            out = set()
+            for bi, bb in enumerate(fn.blocks):
+                if bb["t"]["k"] == "ret" and pv_.flow.state_in[bi] is not None:
+                    for l in leaves(pv_.local(0, bi, len(bb["s"]))):
+                        if l[0] == "agg":
+                            out.add(l[2])
+            return out
+        ok = variant_of(pvt) == {"Initialized"} and variant_of(pvf) == {"Uninitialized"}
+    run.check("R8", "slot-kind", ok, "an update becomes an Initialized slot exactly when update.initialized", loc=fn.loc(), detail="initialized => Initialized(data) else Uninitialized")
+
+
+RULES = [R6_account_wiring, R1_constants, R2_shift_bitmap_pairing, R3_byte_offset, R4_size_and_rent, R5_shared_checks, R7_cross_checks, R8_conversions]
